@@ -11,7 +11,8 @@
                                              closed in this format, so only option lists are expressible)
 
   with insignificant decoration chosen per line by a `Decor`: blank and comment lines in front of the
-  line, indentation, blanks around the assignment character, trailing blanks and a trailing comment.
+  line, indentation, blanks around the assignment character, trailing blanks and a trailing comment (behind a section
+  start or end also directly, without blank).
   Values are written plain when that is unambiguous and in double quotes (quotes inside escaped by a
   backslash, backslashes at the very end put behind the closing quote) otherwise.
 
@@ -44,6 +45,8 @@ structure LineDecor where
   pre    : List UInt8 := []   -- blanks between a name and the character behind it (`=`, `{`)
   post   : List UInt8 := []   -- blanks between `=` and the value
   trail  : List UInt8 := []   -- behind the element: blanks, optionally followed by `#` and a comment text
+  glue   : Option (List UInt8) := none  -- section start / end lines only: comment text put directly (without
+                                        -- blank) behind the element, instead of `trail`
   deriving Repr, Inhabited
 
 /-- decoration per output line (lines are numbered from 0 in writing order) -/
@@ -75,8 +78,19 @@ def insignificantLines (l : List UInt8) : Bool := insigFrom 0 l
 def trailOk (l : List UInt8) : Bool :=
   l.all isBlank || (match l with | c :: _ => isBlank c && commentTail l | [] => true)
 
+/-- what follows a section start or section end on its line -/
+def headTrail (d : LineDecor) : List UInt8 :=
+  match d.glue with
+  | some t => 35 :: t
+  | none => d.trail
+
+/-- behind a section start or end a comment needs no blank in front -/
+def headTrailOk (l : List UInt8) : Bool :=
+  trailOk l || (match l with | c :: t => c == 35 && !t.contains 10 | [] => false)
+
 def LineDecor.ok (d : LineDecor) : Bool :=
   insignificantLines d.before && d.indent.all isBlank && d.pre.all isBlank && d.post.all isBlank && trailOk d.trail
+    && headTrailOk (headTrail d)
 
 def Decor.ok (d : Decor) : Prop := ∀ k, (d k).ok = true
 
@@ -129,10 +143,10 @@ end
 
 /-- `name {` -/
 def openLine (d : LineDecor) (n : List UInt8) : List UInt8 :=
-  d.before ++ d.indent ++ n ++ d.pre ++ [123] ++ d.trail ++ [10]
+  d.before ++ d.indent ++ n ++ d.pre ++ [123] ++ headTrail d ++ [10]
 /-- `}` -/
 def closeLine (d : LineDecor) : List UInt8 :=
-  d.before ++ d.indent ++ [125] ++ d.trail ++ [10]
+  d.before ++ d.indent ++ [125] ++ headTrail d ++ [10]
 
 mutual
 /-- brace style, one tree starting at line `k` -/
@@ -157,7 +171,7 @@ def renderFlat (d : Decor) (open_ close : List UInt8) : Nat → Forest → List 
   | k, (.node n v cs) :: ts =>
     if cs.isEmpty then optionLine (d k) n v ++ renderFlat d open_ close (k + 1) ts
     else
-      ((d k).before ++ (d k).indent ++ open_ ++ n ++ close ++ (d k).trail ++ [10])
+      ((d k).before ++ (d k).indent ++ open_ ++ n ++ close ++ headTrail (d k) ++ [10])
         ++ renderOptions d (k + 1) cs ++ renderFlat d open_ close (k + 1 + cs.length) ts
 
 def render (style : Style) (d : Decor) (f : Forest) : List UInt8 :=
@@ -215,8 +229,11 @@ def decorOf (i : Nat) : Decor :=
       before := if k % 2 == 0 then str "\n  \n# a comment line\n" else str "\t#x\n",
       indent := [9], pre := [32, 32], post := [9],
       trail := if k % 3 == 0 then str "  # trailing" else if k % 3 == 1 then [32, 9] else [] }
-  | _ => fun k => {
+  | 3 => fun k => {
       before := if k == 0 then str "#!first line\n\n" else [],
       indent := List.replicate (k % 2) 32, trail := if k % 2 == 0 then str " #" else [32] }
+  | _ => fun k => {
+      indent := List.replicate (k % 2) 9, trail := if k % 2 == 0 then str "\t# t" else [],
+      glue := if k % 3 == 0 then some (str " glued text") else if k % 3 == 1 then some [] else none }
 
 end Mpt.Render
